@@ -10,6 +10,7 @@ import (
 	"os"
 	"path/filepath"
 	"runtime"
+	"runtime/debug"
 	"sort"
 	"strconv"
 	"strings"
@@ -68,6 +69,7 @@ func verifRoot() string {
 // before calling it.
 func Start(id, level string) *Run {
 	r := &Run{ID: id, Level: level, start: time.Now(), cov: map[string]any{}, counters: map[string]*int64{}, viol: map[string]V{}, root: verifRoot()}
+	debug.SetGCPercent(800)
 	tier := flag.String("tier", envOr("VERIF_TIER", "quick"), "quick|thorough")
 	replay := flag.String("replay", "", "replay file")
 	capS := flag.Duration("cap", 0, "internal wall-clock cap (0 = tier default)")
@@ -168,8 +170,26 @@ func (r *Run) Violation(key, what string, c any) {
 		r.perClass = map[string]int{}
 	}
 	if r.perClass[class] >= perClass || len(r.viol) >= maxKeys {
+		// keep the shortest cases of a class: replace the longest kept key of
+		// this class if the new one is shorter
+		longest := ""
+		for k := range r.viol {
+			if strings.HasPrefix(k, class+" ") && len(k) > len(longest) {
+				longest = k
+			}
+		}
 		r.dropped++
-		return
+		if longest == "" || len(key) >= len(longest) {
+			return
+		}
+		delete(r.viol, longest)
+		for i, k := range r.order {
+			if k == longest {
+				r.order = append(r.order[:i], r.order[i+1:]...)
+				break
+			}
+		}
+		r.perClass[class]--
 	}
 	r.perClass[class]++
 	r.viol[key] = V{key, what, c}
